@@ -228,10 +228,22 @@ def eval_else(case) -> Verdict:
 def eval_aborted(case) -> Verdict:
     """A loop that is left through an error (tolerated in lax mode) must not stay on the loop stack."""
     v = Verdict()
-    env = envs.make_env({"mode": "lax", "twice": False})
-    bad = {"filter": "{{ 1 | divided_by: 0 }}", "limit": "{% for z in items limit: 'x' %}{% endfor %}", "break-ok": "{% break %}"}[case["bad"]]
     tag_o, tag_c = ("{% for a in (1..3) %}", "{% endfor %}") if case["outer"] == "for" else ("{% tablerow a in (1..3) %}", "{% endtablerow %}")
-    src = tag_o + "x" + bad + tag_c + "{% for j in (1..2) %}[{{ forloop.parentloop.index }}|{{ forloop.parentloop.length }}|{{ forloop.index }}]{% endfor %}"
+    if case["bad"] == "depth":
+        # the loop is left while it is being entered: a nest one to three levels deeper than the context depth limit allows
+        env = envs.make_env({"mode": "lax", "twice": False, "limits": {"context_depth_limit": case["limit"]}})
+        room = next(d for d in range(1, 40) if "!" not in env.from_string("{% for a in (1..1) %}" * d + "!" + "{% endfor %}" * d).render())
+        d = room + case["over"]
+        head = "".join((tag_o if (i + case["over"]) % 2 or case["outer"] == "for" else "{% for a in (1..3) %}") for i in range(d))
+        src0 = head + "x"
+        for i in reversed(range(d)):
+            src0 += tag_c if (i + case["over"]) % 2 or case["outer"] == "for" else "{% endfor %}"
+        tag_o = tag_c = bad = ""
+    else:
+        env = envs.make_env({"mode": "lax", "twice": False})
+        bad = {"filter": "{{ 1 | divided_by: 0 }}", "limit": "{% for z in items limit: 'x' %}{% endfor %}", "break-ok": "{% break %}"}[case["bad"]]
+        src0 = "x"
+    src = tag_o + src0 + bad + tag_c + "{% for j in (1..2) %}[{{ forloop.parentloop.index }}|{{ forloop.parentloop.length }}|{{ forloop.index }}]{% endfor %}"
     o = oc.outcome_of(lambda: env.from_string(src).render(items=[1, 2]))
     if o[0] != "ok":
         v.fail(f"aborted:raises:{o[1]}", f"{src!r}: {oc.short(o)!r:.150}")
@@ -376,6 +388,9 @@ def special_cases():
     for outer in ("for", "tablerow"):
         for bad in ("filter", "limit", "break-ok"):
             yield {"kind": "aborted", "outer": outer, "bad": bad}
+        for limit in (8, 12, 30):
+            for over in (0, 1, 2):
+                yield {"kind": "aborted", "outer": outer, "bad": "depth", "limit": limit, "over": over}
 
 
 def campaign(ctx: core.Ctx, tier: str, shard: int, nshards: int) -> None:
